@@ -1944,6 +1944,7 @@ def _input(I, args, v, mode, extra):
         raise builtin_error()
     for x in I.inputs:
         I.pulled += 1
+        I.step()
         yield x
         return
 
@@ -1954,4 +1955,5 @@ def _inputs(I, args, v, mode, extra):
         raise builtin_error()
     for x in I.inputs:
         I.pulled += 1
+        I.step()            # an endless input stream must exhaust the fuel, not hang the model
         yield x
